@@ -356,6 +356,9 @@ pub trait Entry {
 #[derive(Clone, Debug)]
 pub struct TreeEntry {
     entry: DirEntry,
+    /// The number of components at the end of the root path of the walk that are not part of the
+    /// root segment of the entry (the invariant prefix of a glob). Zero when walking a path.
+    pivot: usize,
 }
 
 impl Entry for TreeEntry {
@@ -380,7 +383,10 @@ impl Entry for TreeEntry {
     }
 
     fn depth(&self) -> usize {
-        self.entry.depth()
+        self.entry
+            .depth()
+            .checked_add(self.pivot)
+            .expect("overflow determining depth")
     }
 }
 
@@ -408,6 +414,7 @@ impl Entry for TreeEntry {
 #[derive(Debug)]
 pub struct WalkTree {
     is_dir: bool,
+    pivot: usize,
     input: walkdir::IntoIter,
 }
 
@@ -440,6 +447,7 @@ impl WalkTree {
         let builder = verif::apply_entry_order(builder);
         WalkTree {
             is_dir: false,
+            pivot,
             input: builder.into_iter(),
         }
     }
@@ -460,9 +468,13 @@ impl Iterator for WalkTree {
     type Item = Result<TreeEntry, WalkError>;
 
     fn next(&mut self) -> Option<Self::Item> {
+        let pivot = self.pivot;
         let (is_dir, next) = match self.input.next() {
             Some(result) => match result {
-                Ok(entry) => (entry.file_type().is_dir(), Some(Ok(TreeEntry { entry }))),
+                Ok(entry) => (
+                    entry.file_type().is_dir(),
+                    Some(Ok(TreeEntry { entry, pivot })),
+                ),
                 Err(error) => (false, Some(Err(error.into()))),
             },
             _ => (false, None),
